@@ -16,6 +16,7 @@ incompatible at the FIRST / LAST input, the FIRST / LAST output, or in the signa
     TH   i:int s:str u b:str  -> oi:int os:str ob:bool      last input hinted differently
     TI   i:int s:str u b:bool -> oi:str os:str ob:bool      first output hinted differently
     TJ   i:int s:str u b:bool -> oi:int os:str ob:str       last output hinted differently
+    TK   i:int s:str u b:bool -> i s ob                     outputs labelled like inputs (cf. standard.UserInput)
     TS   = TA plus the extra signal channels xin (input) / xout (output), like standard.If
 
 Every function raises `Boom` when its input `u` is the string "boom" (a node can be driven into
@@ -52,6 +53,8 @@ SPECS: dict[str, tuple[list, list]] = {
     "TI": ([("i", "int"), ("s", "str"), ("u", None), ("b", "bool")], [("oi", "str"), ("os", "str"), ("ob", "bool")]),
     "TJ": ([("i", "int"), ("s", "str"), ("u", None), ("b", "bool")], [("oi", "int"), ("os", "str"), ("ob", "str")]),
 }
+# input and output data channels of the SAME label (like standard.UserInput)
+SPECS["TK"] = ([("i", "int"), ("s", "str"), ("u", None), ("b", "bool")], [("i", None), ("s", None), ("ob", None)])
 SPECS["TS"] = SPECS["TA"]
 EXTRA_SIGNALS = {"TS": (["xin"], ["xout"])}
 HINT_TYPES = {"int": int, "str": str, "bool": bool}
@@ -65,7 +68,7 @@ def _mk(name: str):
     ret = f" -> tuple[{', '.join(h for _l, h in outs)}]" if hinted else ""
     vals = []
     for lab, h in outs:
-        vals.append({"int": "0", "str": "'x'", "bool": "True", None: OUT_VALUE[lab]}[h])
+        vals.append({"int": "0", "str": "'x'", "bool": "True", None: OUT_VALUE.get(lab, "0")}[h])
     src = (
         f"def {name}({params}){ret}:\n"
         f"    if u == 'boom':\n"
